@@ -32,7 +32,7 @@ PROPS = {
         'run_vo': 'Stream/Run.vo', 'props_vo': 'Properties/C07.vo', 'level': 'proof',
         'classes': {1: 'message-missing-altered-duplicated-or-reordered', 2: 'delivered-from-or-after-oversize-frame',
                     3: 'oversize-frame-did-not-close-with-error', 4: 'kept-reading-after-oversize-header',
-                    5: 'error-on-stream-of-valid-frames', 6: 'panic-or-hang'},
+                    5: 'error-on-stream-of-valid-frames', 6: 'panic-or-hang', 7: 'header-answer-changes-on-longer-prefix'},
         'trusted': ['hook tcp/coder/export_stream_verif.go (build tag verif) exposing messageMaxLen to gen'],
         'assumptions': ['uint32 arithmetic of DecodeHeader modelled in Z with explicit mod 2^32',
                         'the goroutine hand-off from the receive queue to the handler is C11\'s subject: the harness keeps the connection open (on-close callback) until every accepted message was dispatched'],
